@@ -81,6 +81,16 @@ Definition archive_op (c : cfg) (s : sys) (fs : list file) (overwrite initializi
   let '(ms, hs, s) := archive_members c s fs in
   append_and_index c s last ms hs overwrite initializing.
 
+(* a record that carries no content has size 0 on the tape: the entry's size travels in STFS.UncompressedSize, which is added
+   from the known size when the header has none yet (entries indexed from a foreign archive) *)
+Definition keep_size (h : hdr) : pax :=
+  if 0 <? h_size h then
+    match pax_get K_usize (h_pax h) with
+    | Some _ => h_pax h
+    | None => pax_set K_usize (decimal (h_size h)) (h_pax h)
+    end
+  else h_pax h.
+
 (* Operations.Update *)
 Fixpoint update_members (c : cfg) (s : sys) (fs : list file) (replace skip : bool) : list member * list hdr * sys :=
   match fs with
@@ -95,7 +105,7 @@ Fixpoint update_members (c : cfg) (s : sys) (fs : list file) (replace skip : boo
         let h3 := set_pax h2 (pax_set K_replaces_content V_true (h_pax h2)) in
         let '(m, s) := mk_member s h3 (if carries then Some (f_data f) else None) enc in (m, h3, s)
       else
-        let h3 := with_size_name (set_pax h2 (pax_set K_replaces_content V_false (h_pax h2))) 0 (h_name h2) in
+        let h3 := with_size_name (set_pax h2 (pax_set K_replaces_content V_false (keep_size h2))) 0 (h_name h2) in
         let '(m, s) := mk_member s h3 None 0 in (m, h3, s) in
     let '(ms, hs, s) := update_members c s r replace skip in
     (m :: ms, h' :: hs, s)
@@ -148,7 +158,7 @@ Definition move_op (c : cfg) (s : sys) (from to : str) : sys * outc :=
                 let nn := path_join2 to (trim_prefix (trim_prefix [slash] from) (trim_prefix [slash] (r_name x))) in
                 with_size_name (set_pax h (pax_set K_replaces_name (r_name x)
                                            (pax_set K_action V_update (pax_set K_version V_1
-                                              (pax_del K_replaces_content (h_pax h)))))) 0 nn)
+                                              (pax_del K_replaces_content (keep_size h)))))) 0 nn)
               (r :: kids) in
     let '(ms, s) := plain_members (set_db s p) hs in
     append_and_index c s last ms hs false false
